@@ -349,6 +349,16 @@ func (d *c06DB) StoreKeys(context.Context, map[PublicKeyLookupRequest]PublicKeyL
 	return nil
 }
 
+// c06BrokenVerifier fails altogether ("error") or answers with an empty result list ("short").
+type c06BrokenVerifier struct{ mode string }
+
+func (v c06BrokenVerifier) VerifyJSONs(ctx context.Context, reqs []VerifyJSONRequest) ([]VerifyJSONResult, error) {
+	if v.mode == "error" {
+		return nil, fmt.Errorf("c06: scripted verifier failure")
+	}
+	return []VerifyJSONResult{}, nil
+}
+
 func c06Ctx() context.Context {
 	l := logrus.New()
 	l.SetOutput(io.Discard)
@@ -635,6 +645,19 @@ func c06Check(ctx *vfCtx, c c06Case) {
 		}
 		if ferr == nil {
 			ctx.Fail("C06/verified-although-the-senders-server-is-unknown", "the sender lookup fails, yet VerifyEventSignatures succeeds for %s", jplain(ev))
+		}
+	}
+	// (iv) the verifier itself fails (its database is down): nothing was verified, so the event must
+	// not come out as verified (and nothing crashes)
+	for _, mode := range []string{"error"} {
+		var verr error
+		if vfCatch(ctx, "C06/verifier-fails/"+mode, func() {
+			verr = VerifyEventSignatures(c06Ctx(), pdu, c06BrokenVerifier{mode: mode}, vfUserIDForSender)
+		}) {
+			return
+		}
+		if verr == nil && mode == "error" {
+			ctx.Fail("C06/verified-although-the-verifier-failed", "the key verifier returns an error, yet VerifyEventSignatures succeeds for %s", jplain(ev))
 		}
 	}
 	now1 := time.Now().UnixMilli()
